@@ -46,6 +46,11 @@ SCHEMA_FAULTS = {
     "const_default_mismatch": {"const": "a", "default": "b"},
     "nested_bad_item": {"type": "array", "items": {"type": "array"}},
     "union_with_bad_member": {"anyOf": [{"type": "string"}, {"$ref": "#/components/schemas/ZzNope"}]},
+    "enum_with_list_member": {"type": "string", "enum": ["asc", "desc", ["asc", "desc"]]},
+    "enum_with_object_member": {"enum": ["asc", {"by": "name"}]},
+    "enum_default_is_list": {"type": "string", "enum": ["asc", "desc"], "default": ["asc"]},
+    "string_default_is_object": {"type": "string", "format": "uuid", "default": {"a": 1}},
+    "tuple_with_bad_slot": {"type": "array", "prefixItems": [{"type": "string"}, {"type": "array"}]},
 }
 OP_FAULTS = ["optional_path_param", "duplicate_param", "unparseable_body", "unsupported_body_only", "invalid_status",
              "response_dangling_ref", "param_bad_schema", "param_dangling_ref"]
@@ -81,7 +86,17 @@ def cases(draw, tier):
             ir["ops"][oi]["params"].append({"name": nm, "in": loc, "required": False, "schema": {"k": "str"}, "level": "op"})
             ins.append({"kind": "shadowed_pathlevel", "host": oi, "loc": loc, "name": nm, "n": len(ins),
                         "fault": draw(st.sampled_from(["array_without_items", "dangling_ref", "invalid_default"]))})
-    return {"ir": ir, "ins": ins, "cfg": {"literal_enums": draw(st.booleans())}}
+    cfg = {"literal_enums": draw(st.booleans())}
+    if draw(st.integers(0, 2)) == 0:
+        # some components are renamed through the class_overrides option (class name, module name or both): containment must hold
+        # for renamed hosts and renamed dependants alike
+        ov = {}
+        for nm in draw(st.lists(st.sampled_from([n for n, _ in ir["schemas"]]), min_size=1, max_size=2, unique=True)):
+            how = draw(st.sampled_from(["both", "class", "module"]))
+            ov[nm] = {**({"class_name": "ZzOv" + nm} if how != "module" else {}),
+                      **({"module_name": "zz_ov_" + snake(nm)} if how != "class" else {})}
+        cfg["class_overrides"] = ov
+    return {"ir": ir, "ins": ins, "cfg": cfg}
 
 
 def strategy(tier):
@@ -214,16 +229,19 @@ def snake(s: str) -> str:
     return s.lower().strip("_")
 
 
-def owner_of(rel: str, ir, op_modules: dict) -> tuple | None:
+def owner_of(rel: str, ir, op_modules: dict, overrides: dict | None = None) -> tuple | None:
     parts = rel.replace("\\", "/").split("/")
     if len(parts) >= 2 and parts[0] == "models" and parts[-1] != "__init__.py":
         stem = parts[-1][:-3]
         best = None
         for n, _ in ir["schemas"]:
-            sn = snake(n)
-            if stem == sn or stem.startswith(sn + "_"):
-                if best is None or len(sn) > len(best[1]):
-                    best = (("schema", n), sn)
+            ov = (overrides or {}).get(n) or {}
+            # a renamed component owns the module it was given, and the modules of inline children named after its new class
+            stems = {snake(n)} | ({ov["module_name"]} if ov.get("module_name") else set()) | ({snake(ov["class_name"])} if ov.get("class_name") else set())
+            for sn in stems:
+                if stem == sn or stem.startswith(sn + "_"):
+                    if best is None or len(sn) > len(best[1]):
+                        best = (("schema", n), sn)
         for i, op in enumerate(ir["ops"]):
             for cand in op_modules.get(i, []):
                 if stem.replace("_", "").startswith(cand.replace("_", "")):  # module and class snake-casing differ ("v_1" vs "v1")
@@ -289,7 +307,7 @@ def run(case, ctx):
         for rel, data in snap0.items():
             if rel.endswith("/"):
                 continue
-            own = owner_of(rel, ir, op_modules)
+            own = owner_of(rel, ir, op_modules, (case.get("cfg") or {}).get("class_overrides"))
             if rel.replace("\\", "/") == "models/__init__.py":
                 continue
             if own is None:
